@@ -114,33 +114,47 @@ func c30Confs(tagsFile string, ip net.IP) (*agent.Config, *serf.Config) {
 // start creates and starts an agent on the tags file through the real Create (which
 // runs the real loader) and Start, plus a real IPC endpoint and RPC client.
 func (x *c30Agent) start() bool {
+	// other harnesses run in parallel on the same loopback range: when the start fails for any
+	// reason other than the tags themselves (address in use), try another address
+	for try := 0; try < 20; try++ {
+		ok, retry := x.startOnce()
+		if ok || !retry {
+			return ok
+		}
+		time.Sleep(50 * time.Millisecond)
+	}
+	return false
+}
+
+// startOnce reports (started, worth retrying on another address).
+func (x *c30Agent) startOnce() (bool, bool) {
 	ip, ret := testutil.TakeIP()
 	x.retIP = ret
 	ac, sc := c30Confs(x.tagsFile, ip)
 	a, err := agent.Create(ac, sc, io.Discard)
 	if err != nil {
 		x.stop()
-		return false
+		return false, false // the loader rejected the tags file
 	}
 	if err := a.Start(); err != nil {
 		x.stop()
-		return false
+		return false, !strings.Contains(err.Error(), "Encoded length of tags exceeds limit")
 	}
 	x.a = a
 	l, err := net.Listen("tcp", "127.0.0.1:0")
 	if err != nil {
 		x.stop()
-		return false
+		return false, true
 	}
 	lw := agent.NewLogWriter(16)
 	x.ipc = agent.NewAgentIPC(a, "", l, io.Discard, lw, false)
 	cl, err := client.NewRPCClient(l.Addr().String())
 	if err != nil {
 		x.stop()
-		return false
+		return false, true
 	}
 	x.cl = cl
-	return true
+	return true, false
 }
 
 // loaded returns the tags a fresh agent.Create loads from the tags file (the real loader).
